@@ -844,6 +844,9 @@ impl<'a> ParserState<'a> {
                         }
                     }
                 }
+                A2lTokenType::Comment => {
+                    // a comment can stand anywhere, also between /end and the tag of the unknown block
+                }
                 _ => {
                     // once balance == 0 is reached for a block, the next tag should be an Identifier
                     if item_is_block && balance == 0 {
